@@ -22,7 +22,7 @@ PROPS["C09"] = dict(
          "(passphrase, SSID, 1-2 BSSIDs; registered by beacon or by address, unregistered, wrong passphrase) x 1-4 stations, merged event list checked after every event. "
          "hostile: even cases sweep body length (case/2 mod 65) with 30 bodies over the three cipher paths, odd cases run 24 stacked mutations of 4 valid frames. "
          "distinct = distinct (cipher, frame bytes prefix, length) / distinct event history; every frame is non-trivial (it reaches the key look-up of an engine holding keys)",
-    floors=dict(any={"hs:session-keys-direct:authenticator-first": 300, "hs:session-keys-direct:supplicant-first": 300, 
+    floors=dict(any={"late-key-scenarios": 500, "hs:session-keys-direct:authenticator-first": 300, "hs:session-keys-direct:supplicant-first": 300, 
         "distinct": 50000,
         "positive:wep/plain": 5000, "positive:tkip/plain": 5000, "positive:ccmp/plain": 5000, "frames:wep40": 2000, "frames:wep104": 2000,
         "chk:payload-bytes-equal": 20000, "chk:payload-ipv4-udp-equal": 3000, "chk:payload-empty": 100,
